@@ -49,6 +49,11 @@ pub(super) struct Operation {
     obj: Ref,
     action: Action,
     location: Location,
+
+    /// `true` when the operation waits for the object to become available
+    /// (`lock`, `write`, `recv`, ...). A pending `try_*` operation never
+    /// waits and must not be blocked by another thread's acquire.
+    blocking: bool,
 }
 
 // TODO: move to separate file
@@ -330,7 +335,7 @@ impl<T: Object<Entry = Entry>> Ref<T> {
         super::branch(|execution| {
             trace!(obj = ?self, ?is_locked, "Object::branch_acquire");
 
-            self.set_action(execution, Action::Opaque, location);
+            self.set_action(execution, Action::Opaque, true, location);
 
             if is_locked {
                 // The mutex is currently blocked, cannot make progress
@@ -347,7 +352,7 @@ impl<T: Object<Entry = Entry>> Ref<T> {
         super::branch(|execution| {
             trace!(obj = ?self, ?action, "Object::branch_action");
 
-            self.set_action(execution, action.into(), location);
+            self.set_action(execution, action.into(), false, location);
         })
     }
 
@@ -360,7 +365,7 @@ impl<T: Object<Entry = Entry>> Ref<T> {
         super::branch(|execution| {
             trace!(obj = ?self, ?action, ?disable, "Object::branch_disable");
 
-            self.set_action(execution, action.into(), location);
+            self.set_action(execution, action.into(), true, location);
 
             if disable {
                 // Cannot make progress.
@@ -373,7 +378,13 @@ impl<T: Object<Entry = Entry>> Ref<T> {
         self.branch_action(Action::Opaque, location)
     }
 
-    fn set_action(self, execution: &mut Execution, action: Action, location: Location) {
+    fn set_action(
+        self,
+        execution: &mut Execution,
+        action: Action,
+        blocking: bool,
+        location: Location,
+    ) {
         assert!(
             T::get_ref(&execution.objects.entries[self.index]).is_some(),
             "failed to get object for ref {:?}",
@@ -384,6 +395,7 @@ impl<T: Object<Entry = Entry>> Ref<T> {
             obj: self.erase(),
             action,
             location,
+            blocking,
         });
     }
 }
@@ -399,6 +411,10 @@ impl Operation {
 
     pub(super) fn location(&self) -> Location {
         self.location
+    }
+
+    pub(super) fn is_blocking(&self) -> bool {
+        self.blocking
     }
 }
 
